@@ -119,12 +119,15 @@ func NewStdReaderLine() ro.Observable[[]byte] {
 // NewPrompt creates an observable that reads user input after displaying a prompt.
 func NewPrompt(prompt string) ro.Observable[[]byte] {
 	return ro.NewUnsafeObservableWithContext(func(ctx context.Context, destination ro.Observer[[]byte]) ro.Teardown {
+		// One buffered reader for the whole subscription: what it has read ahead
+		// (piped input) must not be thrown away with it after each line.
+		reader := bufio.NewReader(os.Stdin)
+
 		for {
 			// Print the prompt to stdout
 			os.Stdout.WriteString(prompt)
 
 			// Read from stdin
-			reader := bufio.NewReader(os.Stdin)
 			line, _, err := reader.ReadLine()
 			if err != nil {
 				if err == io.EOF {
@@ -135,8 +138,10 @@ func NewPrompt(prompt string) ro.Observable[[]byte] {
 				}
 			}
 
-			// Send the input as a byte slice
-			destination.NextWithContext(ctx, line)
+			// Send the input as a byte slice (a copy: `line` is overwritten by the next read)
+			output := make([]byte, len(line))
+			copy(output, line)
+			destination.NextWithContext(ctx, output)
 		}
 
 		destination.CompleteWithContext(ctx)
